@@ -47,10 +47,7 @@ func H_flow() {
 		case hkPanics:
 			nk := 4
 			if d >= 2 {
-				nk = 3 // runtime errors only on the shallow trees (path count)
-			}
-			if d >= 3 {
-				nk = 1 // deep trees: symbolic integer panic values only
+				nk = 1 // deeper trees: symbolic integer panic values only (path count)
 			}
 			switch vChoice("panicvalkind", nk) {
 			case 3:
@@ -96,6 +93,11 @@ func H_flow() {
 	}
 	app := App("app", "")
 	app.ErrorHandling = flag.ContinueOnError
+	if d <= 1 && hooks[d+1].kind != hkAbsent {
+		// the flow does not depend on the error policy: valid invocations, all three policies
+		// (a command without Action prints its usage and follows the policy: C07, not C05)
+		app.ErrorHandling = []flag.ErrorHandling{flag.ContinueOnError, flag.ExitOnError, flag.PanicOnError}[vChoice("policy", 3)]
+	}
 	var wire func(c *Cmd, lvl int)
 	wire = func(c *Cmd, lvl int) {
 		c.Before = mk(lvl)
